@@ -25,7 +25,8 @@ RULE = ("3 of 4 runs: EVSE bench - one generated EVSE (continuous incl. min>0 / 
 PROBES = ["finite_levels_replaced_after_construction", "near_boundary_with_ev", "near_boundary_no_ev", "rejected", "accepted_edge", "nan_pilot", "advertised_value",
           "plugin_occupied", "world_invalid_pilot", "world_rejected_with_ev", "min_gt_zero_evse", "inf_max_evse", "advertised_inf_max",
           "finite_without_zero", "finite_unsorted_or_dup", "twin_evses_world", "world_resume_json", "world_advertised_value",
-          "plugin_occupied_same_session_id", "world_party_scribbled_on_handed_info", "rates_given_as_one_shot_iterable", "plugin_occupied_via_network", "plugin_occupied_newcomer_after_occupants_departure", "pilot_sent_through_network", "bench_network_over_64_stations", "plugin_occupied_same_object", "near_duplicate_levels"]
+          "plugin_occupied_same_session_id", "world_party_scribbled_on_handed_info", "rates_given_as_one_shot_iterable", "plugin_occupied_via_network", "plugin_occupied_newcomer_after_occupants_departure", "pilot_sent_through_network", "bench_network_over_64_stations", "plugin_occupied_same_object", "near_duplicate_levels",
+          "caller_keeps_the_rate_list_it_passed", "caller_edited_its_own_rate_list", "subclass_overrides_rate_properties"]
 FAULT_DIMENSION = ("misbehaving scheduler: out-of-set pilot at an arbitrary call of a run (terminal fault, judged on the rejected station); "
                    "scheduler crash + JSON save/load (advertised limits must still be each station's own)")
 REAL_VS_STUB = "real: EVSE, DeadbandEVSE, FiniteRatesEVSE, EV, Battery models, ChargingNetwork, Interface, Simulator; ours: probing party"
@@ -136,9 +137,29 @@ def gen(rs, tier):
                         "intr_arrival": r.choice([0, 50, 100, 100, 150])})
         elif ev is not None:
             ops.append({"op": "unplug"})
-    return {"seed": rs, "evse": e, "ev": ev, "ops": ops, "voltage": r.choice([120, 208, 240]), "period": r.choice([1, 5, 15]),
-            "filler_stations": sub(rs, "filler").choice([0] * 11 + [70]),
-            "rates_form": r.choice(["list", "list", "iter", "gen", "map", "tuple", "ndarray"])}
+    sc = {"seed": rs, "evse": e, "ev": ev, "ops": ops, "voltage": r.choice([120, 208, 240]), "period": r.choice([1, 5, 15]),
+          "filler_stations": sub(rs, "filler").choice([0] * 11 + [70]),
+          "rates_form": r.choice(["list", "list", "iter", "gen", "map", "tuple", "ndarray"])}
+    rx = sub(rs, "c13_extras")
+    if e["type"] == "Finite" and sc["rates_form"] == "list" and rx.random() < 0.5:
+        # the caller keeps the list it handed to the constructor and goes on using it (one list grown station by station, a level
+        # corrected in place): the charger built earlier must not follow
+        sc["own_list_normalised"] = rx.random() < 0.6          # handed over already sorted, without repeats, with its 0
+        ops.insert(rx.randint(0, max(0, len(ops) - 2)), {"op": "caller_edits_own_list", "how": rx.choice(["append", "append", "bump", "insert", "clear"]), "u": rx.random()})
+    if e["type"] in ("EVSE", "Deadband") and e.get("max") is not None and rx.random() < 0.12:
+        # a user subclass that derates the charger (max_rate property) or imposes a site floor (min_rate property): what it
+        # advertises and what it accepts both follow the overridden properties
+        f_ = rx.choice([0.8, 0.5, 0.9])
+        lo_ = e.get("deadband_end", e.get("min", 0))
+        if e["max"] * f_ > lo_ + 0.5:
+            sc["derate"] = f_
+            for d_ in rx.sample(DELTAS, 4):
+                ops.insert(rx.randint(0, len(ops)), {"op": "set", "v": e["max"] * f_ + d_, "kind": "edge"})
+        if e["type"] == "EVSE" and e.get("min", 0) == 0 and e["max"] * f_ > 7 and rx.random() < 0.4:
+            sc["floor"] = 6
+            for d_ in rx.sample(DELTAS, 3):
+                ops.insert(rx.randint(0, len(ops)), {"op": "set", "v": 6 + d_, "kind": "edge"})
+    return sc
 
 
 def check(sc):
@@ -170,6 +191,24 @@ def check(sc):
                 evse = sut.FiniteRatesEVSE("X", arg)
                 if rf in ("iter", "gen", "map"):
                     out.probe("rates_given_as_one_shot_iterable")
+            elif e["type"] == "Finite" and "own_list_normalised" in sc:
+                own_list = evse_levels(e) if sc["own_list_normalised"] else list(e["rates"])
+                evse = sut.FiniteRatesEVSE("X", own_list)
+                out.probe("caller_keeps_the_rate_list_it_passed")
+            elif sc.get("derate") or sc.get("floor") is not None:
+                base_cls = sut.EVSE if e["type"] == "EVSE" else sut.DeadbandEVSE
+                f_, fl_ = sc.get("derate"), sc.get("floor")
+                ns = {}
+                if f_:
+                    ns["max_rate"] = property(lambda self, _b=base_cls, _f=f_: _b.max_rate.fget(self) * _f)
+                    e["max"] = e["max"] * f_
+                if fl_ is not None:
+                    ns["min_rate"] = property(lambda self, _v=fl_: _v)
+                    e["min"] = fl_
+                Sub = type("SiteLimited" + base_cls.__name__, (base_cls,), ns)
+                mx_ = sc["evse"]["max"]
+                evse = Sub("X", max_rate=mx_, min_rate=sc["evse"].get("min", 0)) if e["type"] == "EVSE" else Sub("X", deadband_end=e["deadband_end"], max_rate=mx_)
+                out.probe("subclass_overrides_rate_properties")
             else:
                 evse = build_evse("X", e)
             mk_ev = lambda i: sut.EV(0, 100, sc["ev"]["energy"], "X", "sess%d" % i, build_battery(sc["ev"]["battery"]))
@@ -260,6 +299,21 @@ def check(sc):
                     evse.allowable_rates = list(new)
                     e["rates"] = list(new)
                     out.probe("finite_levels_replaced_after_construction")
+                elif o == "caller_edits_own_list":
+                    if "own_list_normalised" in sc and e["type"] == "Finite":
+                        top_ = max(own_list) if own_list else 0
+                        if op["how"] == "append":
+                            own_list.append(top_ + round(1 + 20 * op["u"], 1))
+                        elif op["how"] == "bump" and len(own_list) >= 2:
+                            own_list[-1] = own_list[-1] + 3.5
+                        elif op["how"] == "insert":
+                            own_list.insert(1, round(0.5 + op["u"], 2))
+                        else:
+                            del own_list[:]
+                        out.probe("caller_edited_its_own_rate_list")
+                        if list(evse.allowable_pilot_signals) != evse_levels(e):
+                            out.add("C13/levels_follow_callers_list", "op %d: after the caller edited the list it had passed to the constructor (%s) the charger "
+                                    "advertises %s, it was built with %s" % (i, op["how"], list(evse.allowable_pilot_signals), evse_levels(e)))
                 elif o == "advertised":
                     vals = [evse.max_rate, evse.min_rate] + list(evse.allowable_pilot_signals)
                     for v in vals:
